@@ -288,6 +288,34 @@ def run(ctx: Any, prog: Program) -> None:
     ctx.rule('C16.Q3', 'text name tables and keywords agree between FGD writer and parser', floor=25)
     ctx.rule('C16.Q4', 'text writers: no dangling colon, quoted slots escaped, long strings not cut inside an escape, parser options', floor=40)
     ctx.rule('C16.Q5', 'lazy block parsing only fills placeholders with fresh objects, is idempotent, and is shared by get_fgd', floor=8)
+    # Q4 clause: "written without quotes if it is a number" must not apply to the EMPTY text.  A digit test of the form `all(c in DIGITS for c in s)`
+    # is vacuously true for '', so wherever KVDef.export chooses the bare form by such a test the text is known to be non-empty (an enclosing
+    # truth test of it) - otherwise `"" : "None"` in a choices list is written as ` : "None"`, which the parser rejects.
+    kve_ = fgd.func('KVDef.export')
+
+    def _vacuous_pred(e: ast.AST) -> Optional[str]:
+        """name of the variable whose characters an `all(...)` test (inline or through a one-line module helper) ranges over"""
+        if isinstance(e, ast.Call) and dotted(e.func) == 'all' and e.args and isinstance(e.args[0], ast.GeneratorExp) and isinstance(e.args[0].generators[0].iter, ast.Name):
+            return e.args[0].generators[0].iter.id
+        if isinstance(e, ast.Call) and isinstance(e.func, ast.Name) and fgd.has_func(e.func.id) and len(e.args) == 1 and isinstance(e.args[0], ast.Name):
+            hf = fgd.func(e.func.id)
+            rets_ = [r.value for r in walk_no_nested(hf) if isinstance(r, ast.Return)]
+            if len(rets_) == 1 and len(hf.args.args) == 1 and _vacuous_pred(rets_[0]) == hf.args.args[0].arg:
+                return e.args[0].id
+        return None
+    n_vac = 0
+    for if_ in [n for n in ast.walk(kve_) if isinstance(n, ast.If)]:
+        t_ = if_.test.operand if isinstance(if_.test, ast.UnaryOp) and isinstance(if_.test.op, ast.Not) else if_.test
+        var_ = _vacuous_pred(t_)
+        if var_ is None:
+            continue
+        n_vac += 1
+        # the variable, or what it was str()-ed from, is tested for truth by an enclosing `if`
+        srcs_ = {var_} | {x.id for a in ast.walk(kve_) if isinstance(a, ast.Assign) and any(dotted(t) == var_ for t in a.targets) for x in ast.walk(a.value) if isinstance(x, ast.Name)}
+        guarded_ = any(isinstance(a_, ast.If) and a_ is not if_ and any(isinstance(x, ast.Name) and x.id in srcs_ for x in ast.walk(a_.test)) and any(if_ is y for b in a_.body for y in ast.walk(b)) for a_ in _anc16(fgd, if_, kve_))
+        ctx.check('C16.Q4', guarded_, fgd, if_, f'KVDef.export writes `{var_}` without quotes when `{U(t_)[:50]}` - a test that is also true for the empty string - and nothing here rules the empty string out: an empty '
+                  'choice value is written as nothing at all in front of the colon, which the parser refuses', func='KVDef.export', text=f'bare form of `{var_}` excludes the empty text')
+    ctx.shape('C16.Q4', n_vac >= 1, fgd, kve_, 'no `all(...)`-style digit test found in KVDef.export (the default value test confirmed by hand)', func='KVDef.export', text='bare-number tests')
     # per-object state that methods change in place must not be a class-level container shared by every instance (see engine.model)
     from engine.model import shared_mutable_class_attrs as _smca
     for _m in (db, fgd):
@@ -430,6 +458,32 @@ def run(ctx: Any, prog: Program) -> None:
             ctx.shape('C16.Q1', rn == 'flags' and 'flags' in U(wa), db, wa, 'first header byte carries the entity flags', func='ent_serialise', text='entity header slot 0 flags')
             continue
         wcoll = sorted({x.attr for x in ast.walk(wa) if isinstance(x, ast.Attribute) and dotted(x.value) == 'ent'})
+        if not wcoll:
+            # the counted collection may be a local taken out of a list of the attribute maps: `[keyvalues, inputs, outputs] = attr_maps`
+            resolved_, verdict_ = None, None
+            for nm_ in [x.id for x in ast.walk(wa) if isinstance(x, ast.Name) and isinstance(x.ctx, ast.Load)]:
+                for a_ in ast.walk(es):
+                    if isinstance(a_, ast.Assign) and isinstance(a_.targets[0], (ast.List, ast.Tuple)) and any(isinstance(e, ast.Name) and e.id == nm_ for e in a_.targets[0].elts) and isinstance(a_.value, ast.Name):
+                        pos_ = next(k for k, e in enumerate(a_.targets[0].elts) if isinstance(e, ast.Name) and e.id == nm_)
+                        srcs_ = [d.value for d in ast.walk(es) if isinstance(d, ast.Assign) and any(dotted(t) == a_.value.id for t in d.targets)]
+                        empties = [d for d in srcs_ if isinstance(d, (ast.List, ast.Tuple)) and pos_ < len(d.elts) and isinstance(d.elts[pos_], (ast.Dict, ast.List)) and not getattr(d.elts[pos_], 'keys', getattr(d.elts[pos_], 'elts', None))]
+                        attrs_ = [d for d in srcs_ if '_iter_attrs()' in U(d)]
+                        if empties:
+                            verdict_ = (False, f'`{nm_}` is element {pos_} of `{a_.value.id}`, which on one path is `{U(empties[0])[:40]}`: for those entities the writer counts and writes an EMPTY map')
+                        elif attrs_ and len(attrs_) == len(srcs_):
+                            ia = fgd.func('EntityDef._iter_attrs')
+                            lst_ = next((x for r in ast.walk(ia) if isinstance(r, ast.Return) and r.value is not None for x in ast.walk(r.value) if isinstance(x, (ast.List, ast.Tuple))), None)
+                            if lst_ is not None and pos_ < len(lst_.elts) and isinstance(lst_.elts[pos_], ast.Attribute):
+                                resolved_ = lst_.elts[pos_].attr
+            if verdict_ is not None:
+                ctx.check('C16.Q1', False, db, wa, f'entity header slot {i}: {verdict_[1]}, where the reader fills `{rcoll.get(rn or "")}` from the file - what the entity itself defined is lost', func='ent_serialise',
+                          text=f'entity header slot {i} {rn}')
+                continue
+            if resolved_ is not None:
+                wcoll = [resolved_]
+            elif any(isinstance(x, ast.Name) for x in ast.walk(wa)) and rcoll.get(rn or ''):
+                ctx.shape('C16.Q1', False, db, wa, f'entity header slot {i}: the counted collection `{U(wa)[:50]}` was not resolved', func='ent_serialise', text=f'entity header slot {i} {rn}')
+                continue
         order_w += wcoll
         ctx.check('C16.Q1', wcoll == [rcoll.get(rn or '')], db, wa, f'entity header slot {i}: the writer counts {wcoll} but the reader uses it (`{rn}`) to bound the loop filling `{rcoll.get(rn or "")}`', func='ent_serialise',
                   text=f'entity header slot {i} {rn}')
@@ -1061,6 +1115,9 @@ def run(ctx: Any, prog: Program) -> None:
 
 
 MUTANTS: List[Dict[str, Any]] = [
+    {'id': 'choice_values_bare_when_all_digits', 'file': 'fgd.py', 'find': "                    try:\n                        float(value)\n                    except ValueError:\n                        value = f'\"{_fgd_escape(custom_syntax, value)}\"'", 'replace': "                    if not all(x in '0123456789-' for x in value):\n                        value = f'\"{_fgd_escape(custom_syntax, value)}\"'", 'expect': 'C16.Q4'},
+    {'id': 'alias_entities_serialised_without_their_maps', 'file': '_engine_db.py', 'find': "    if ent.is_alias:\n        flags |= EntFlags.IS_ALIAS\n", 'replace': "    attr_maps = list(ent._iter_attrs())\n    if ent.is_alias:\n        flags |= EntFlags.IS_ALIAS\n        attr_maps = [{}, {}, {}]\n    [keyvalues, inputs, outputs] = attr_maps\n", 'extra': [{'file': '_engine_db.py', 'find': "        sum(1 for tag_map in ent.keyvalues.values() if tag_map),", 'replace': "        sum(1 for tag_map in keyvalues.values() if tag_map),"}], 'expect': 'C16.Q1'},
+    {'id': 'ok_entity_maps_through_locals', 'file': '_engine_db.py', 'find': "    if ent.is_alias:\n        flags |= EntFlags.IS_ALIAS\n", 'replace': "    attr_maps = list(ent._iter_attrs())\n    if ent.is_alias:\n        flags |= EntFlags.IS_ALIAS\n    [keyvalues, inputs, outputs] = attr_maps\n", 'extra': [{'file': '_engine_db.py', 'find': "        sum(1 for tag_map in ent.keyvalues.values() if tag_map),", 'replace': "        sum(1 for tag_map in keyvalues.values() if tag_map),"}], 'expect': None, 'refuse_ok': True},
     {'id': 'classname_listing_sorted_casefolded', 'file': '_engine_db.py', 'find': "        classnames = STRING_SEP.join(ent.classname for ent in block_ents).encode('utf8')", 'replace': "        classnames = STRING_SEP.join(sorted((ent.classname for ent in block_ents), key=str.casefold)).encode('utf8')", 'expect': 'C16.Q1'},
     {'id': 'report_keyword_only_with_custom_syntax', 'file': 'fgd.py', 'find': "        if self.reportable:\n            file.write('report ')", 'replace': "        if self.reportable and custom_syntax:\n            file.write('report ')", 'expect': 'C16.Q3'},
     {'id': 'spawnflags_type_byte_before_readonly', 'file': '_engine_db.py', 'find': "    # Use the high bit to store this inside here as well.\n    if kvdef.readonly:\n        value_type |= 128\n    file.write(_fmt_8bit.pack(value_type))\n", 'replace': "    if kvdef.type is ValueTypes.SPAWNFLAGS:\n        file.write(_fmt_8bit.pack(value_type))\n    if kvdef.readonly:\n        value_type |= 128\n    if kvdef.type is not ValueTypes.SPAWNFLAGS:\n        file.write(_fmt_8bit.pack(value_type))\n", 'expect': 'C16.Q1'},
